@@ -354,6 +354,40 @@ class State:
                     return True
         return False
 
+    def infeasible(self, cap=80):
+        """bounded Fourier-Motzkin: True if the inequalities (over the rationals)
+        are certainly contradictory; False = not shown"""
+        if self.bottom:
+            return True
+        cur = list(self.ineq)
+        if len(cur) < 3:
+            return False
+        syms = set()
+        for i in cur:
+            syms |= set(i.t)
+        for s in sorted(syms, key=lambda x: sum(1 for i in cur if x in i.t)):
+            pos = [i for i in cur if i.t.get(s, 0) > 0]
+            neg = [i for i in cur if i.t.get(s, 0) < 0]
+            rest = [i for i in cur if s not in i.t]
+            if len(pos) * len(neg) + len(rest) > cap:
+                return False
+            seen = {i.key() for i in rest}
+            for p in pos:
+                for n in neg:
+                    # p: a*s + P >= 0 (a>0), n: -b*s + Q >= 0 (b>0)  =>  b*P + a*Q >= 0
+                    a, b = p.t[s], -n.t[s]
+                    c = p.scale(b) + n.scale(a)
+                    if not c.t:
+                        if c.c < 0:
+                            return True
+                        continue
+                    k = c.key()
+                    if k not in seen:
+                        seen.add(k)
+                        rest.append(c)
+            cur = rest
+        return False
+
     def lower_bound(self, e):
         """largest constant c found with e >= c entailed, or None"""
         r = self.reduce(e)
